@@ -116,6 +116,7 @@ let run_sock (args : string list) : string =
 
 (* fair queue labels: same syntax as harness/src/fq.rs *)
 let parse_ev (t : string) : FairQueue.label =
+  if t = "Y" then FairQueue.LYield else
   let c = t.[0] and rest = String.sub t 1 (String.length t - 1) in
   match c with
   | 'I' -> FairQueue.LInsert (n_of_int (int_of_string rest))
